@@ -687,6 +687,20 @@ func c12Response(ctx *core.Ctx, r *RT, pr *bounds.Prover) {
 			eT.AddCond(re.If.Cond, re.Taken)
 			eF.AddCond(re.If.Cond, !re.Taken)
 			_, sIsLen := CallValue(bo.X)
+			// the size compared is the encoded response itself — a plain length, not a
+			// length plus framing overhead (len(prependFrameSize(b)) = len(b)+4)
+			pure := S.C.Sign() == 0 && len(S.Vs) == 1
+			for _, co := range S.Vs {
+				if !co.IsInt64() || co.Int64() != 1 {
+					pure = false
+				}
+			}
+			if !pure {
+				ctx.Violate("C12.R2", ssax.Name(h)+" › response guard measures the response payload", r.IPos(re.If),
+					"the size compared with the client's limit is "+S.String()+", not the length of the encoded response: the frame header (or other overhead) is counted against the limit, so a response within the limit is answered with 413")
+			} else {
+				ctx.Discharge("C12.R2", ssax.Name(h)+" › response guard measures the response payload", r.IPos(re.If), "a plain length: "+S.String())
+			}
 			exact := sIsLen && eT.Prove(lin.GT(S, L, "")) && eF.Prove(lin.LE(S, L, ""))
 			ctx.Check(exact, "C12.R2", ssax.Name(h)+" › response guard is exactly size > requested limit", r.IPos(re.If), "reject ⇔ outBuf.Len() > limit", "the HTTP handler's response-size guard is off: a response within the client's limit is refused or one over it is sent")
 			lv := ssax.Strip(bo.Y)
